@@ -117,15 +117,13 @@ loop:
 		switch u & (1<<childrenBitsNodeType - 1) {
 		case nodeTypeNormal:
 			suffix = 1 + dot
+			icann = icannNode
 		case nodeTypeException:
 			suffix = 1 + len(s)
 			break loop
 		}
 		u >>= childrenBitsNodeType
 		wildcard = u&(1<<childrenBitsWildcard-1) != 0
-		if !wildcard {
-			icann = icannNode
-		}
 
 		if dot == -1 {
 			break
